@@ -98,6 +98,34 @@ theorem admissible_subset {rows : List Row} {n : Nat} {removed : List Nat}
   intro i hi
   exact h.1.1.2 i hi
 
+/-- what an admissible answer to `ORDER BY atime ASC LIMIT n` means -/
+theorem admissible_spec {rows : List Row} {n : Nat} {removed : List Nat}
+    (h : admissibleRemoved rows n removed = true) :
+    removed.Nodup ∧ removed.length = min n rows.length ∧
+    (∀ r ∈ rows, r.id ∈ removed → ∀ k ∈ rows, k.id ∉ removed → r.atime ≤ k.atime) := by
+  unfold admissibleRemoved at h
+  simp only [Std.HashSet.contains_ofList, Bool.and_eq_true, beq_iff_eq] at h
+  obtain ⟨⟨⟨hnd, _⟩, hlen⟩, hord⟩ := h
+  refine ⟨(nodupB_iff _).1 hnd, hlen, ?_⟩
+  intro r hr hrin k hk hkout
+  have hr' : r ∈ rows.filter (fun r => removed.contains r.id) :=
+    List.mem_filter.2 ⟨hr, by simpa using hrin⟩
+  have hk' : k ∈ rows.filter (fun r => !removed.contains r.id) :=
+    List.mem_filter.2 ⟨hk, by simpa using hkout⟩
+  split at hord
+  · next a b ha hb =>
+    have h1 := maxAtime_ge ha r hr'
+    have h2 := minAtime_le hb k hk'
+    have : a ≤ b := by simpa using hord
+    omega
+  · next hnone =>
+    cases ha : maxAtime (rows.filter (fun r => removed.contains r.id)) with
+    | none => rw [maxAtime_eq_none ha] at hr'; cases hr'
+    | some a =>
+      cases hb : minAtime (rows.filter (fun r => !removed.contains r.id)) with
+      | none => rw [minAtime_eq_none hb] at hk'; cases hk'
+      | some b => exact absurd hb (hnone a b ha)
+
 theorem cleanup_frame {db db' : Db} (hinv : DbInv db) {s : Space} (hs : s ∈ Space.all) {u : Sub}
     (hu : u.valid = true) {m : Nat} {removed : List Nat} (h : cleanup db s u m removed = .ok db') :
     Frame db db' s u ∧ DbInv db' := by
